@@ -332,6 +332,36 @@ class DirectSolver(LinearSolver):
 
         return mtx
 
+    def _get_vec_scaling(self):
+        """
+        Return the scaling factors of the linear output and residual vectors.
+
+        Returns
+        -------
+        tuple of ndarray or None
+            Factors converting the scaled doutputs and dresiduals vectors to physical form, or
+            None if the system has no output or residual scaling.
+        """
+        system = self._system()
+        if not (system._has_output_scaling or system._has_resid_scaling):
+            return None
+
+        bvec = system._dresiduals
+        xvec = system._doutputs
+        b_data = bvec.asarray(copy=True)
+        x_data = xvec.asarray(copy=True)
+
+        xvec.set_val(1.0)
+        bvec.set_val(1.0)
+        with system._unscaled_context(outputs=[xvec], residuals=[bvec]):
+            so = xvec.asarray(copy=True).real
+            sr = bvec.asarray(copy=True).real
+
+        bvec.set_val(b_data)
+        xvec.set_val(x_data)
+
+        return so, sr
+
     def _linearize(self):
         """
         Perform factorization.
@@ -378,6 +408,7 @@ class DirectSolver(LinearSolver):
                                    "when running under MPI if comm.size > 1.")
 
             mtx = self._build_mtx()
+            self._mtx_scaling = self._get_vec_scaling()
 
             # During LU decomposition, detect singularities and warn user.
             with warnings.catch_warnings():
@@ -525,7 +556,17 @@ class DirectSolver(LinearSolver):
 
         # matrix-vector-product generated jacobians are scaled.
         else:
-            x_vec[:] = sol_array = scipy.linalg.lu_solve(self._lup, b_vec, trans=trans_lu)
+            scaling = getattr(self, '_mtx_scaling', None)
+            if mode == 'rev' and scaling is not None:
+                # The matrix was generated by forward products on scaled vectors, i.e. it is
+                # Sr^-1 J So.  The scaled reverse vectors obey dout = So^-1 J^T Sr dres, so its
+                # transpose has to be applied between So^2 dout and Sr^2 dres.
+                so, sr = scaling
+                sol_array = scipy.linalg.lu_solve(self._lup, b_vec * so ** 2, trans=trans_lu)
+                sol_array /= sr ** 2
+                x_vec[:] = sol_array
+            else:
+                x_vec[:] = sol_array = scipy.linalg.lu_solve(self._lup, b_vec, trans=trans_lu)
 
         if not system.under_complex_step and self._lin_rhs_checker is not None and mode == 'rev':
             self._lin_rhs_checker.add_solution(b_vec, sol_array, system, copy=True)
